@@ -53,24 +53,52 @@ def prescribed : FErr → String
   | .noFrames | .wrongType => "ProtocolViolation"
   | .incompleteType | .invalidType | .incompleteFrame | .parseError => "FrameEncoding"
 
-/-- Every decoding error of a payload is reported as the connection error the protocol prescribes
-(`impl From<frame::Error> for QuicError`, regenerated from frame/error.rs on every run). -/
-theorem frame_err_kind_prescribed (e : FErr) : frameErrKind e = prescribed e := by
-  cases e <;> rfl
+/-- The full statement: every decoding error of a payload is reported as the connection error the protocol
+prescribes (`impl From<frame::Error> for QuicError`, regenerated from frame/error.rs on every run).
+**False of the code**: `WrongType` is mapped to FRAME_ENCODING_ERROR (known finding
+`errkind:WrongType:FrameEncoding`; the repo's own unit test asserts that mapping, so it is not repaired). -/
+theorem frame_err_kind_prescribed_fails : ¬ (∀ e : FErr, frameErrKind e = prescribed e) := by
+  intro h; exact absurd (h .wrongType) (by decide)
 
-/-- A malformed frame / unknown type is FRAME_ENCODING_ERROR … -/
+/-- … and it holds for every error class except that one. -/
+theorem frame_err_kind_prescribed_partial (e : FErr) (h : e ≠ .wrongType) : frameErrKind e = prescribed e := by
+  cases e <;> first | rfl | exact absurd rfl h
+
+example : (FErr.invalidType) ≠ .wrongType := by decide
+
+/-- A malformed frame / unknown type is FRAME_ENCODING_ERROR. -/
 theorem frame_err_is_frame_encoding (bs : Bytes) (t : PktType) (k : ErrKind) (h : decFrame t bs = .err k) :
-    k ≠ .wrongType → ∃ e, ferrOf k = some e ∧ frameErrKind e = "FrameEncoding" := by
+    k ≠ .wrongType → ∃ e, ferrOf k = some e ∧ frameErrKind e = "FrameEncoding" ∧ prescribed e = "FrameEncoding" := by
   intro hk
   obtain ⟨e, he, _⟩ := decFrame_err t bs k h
   refine ⟨e, he, ?_⟩
-  cases k <;> simp [ferrOf] at he hk ⊢ <;> subst he <;> rfl
+  cases k <;> simp [ferrOf] at he hk ⊢ <;> subst he <;> exact ⟨rfl, rfl⟩
 
-/-- … a frame type the packet type does not admit is PROTOCOL_VIOLATION … -/
-theorem wrong_packet_type_is_protocol_violation (bs : Bytes) (t : PktType) (h : decFrame t bs = .err .wrongType) :
-    frameErrKind .wrongType = "ProtocolViolation" := by rfl
+example : decFrame .oneRtt [0x40, 0x21] = .err (.invalidType 33) := by decide
 
-example : decFrame .initial [0x1e] = .err .wrongType := by decide   -- HANDSHAKE_DONE in an Initial packet
+/-- The full statement for a frame in a packet type that does not admit it: PROTOCOL_VIOLATION (RFC 9000 §12.4).
+**False of the code**, witness: NEW_TOKEN (type 0x07) in an Initial packet. -/
+theorem wrong_packet_type_is_protocol_violation_fails :
+    ¬ (∀ (bs : Bytes) (t : PktType), decFrame t bs = .err .wrongType → frameErrKind .wrongType = "ProtocolViolation") := by
+  intro h; exact absurd (h [0x07] .initial (by decide)) (by decide)
+
+/-- What does hold: such a frame is refused — the loop of `read_plain_packet` stops there with `WrongType`, nothing of
+it reaches a dispatcher — and the connection error raised is FRAME_ENCODING_ERROR (any other kind, or a later repair
+to PROTOCOL_VIOLATION, makes this theorem or `…_fails` stop checking). -/
+theorem wrong_packet_type_is_protocol_violation_partial (bs : Bytes) (t : PktType)
+    (h : decFrame t bs = .err .wrongType) :
+    FrameReader.next t bs = .err .wrongType ∧ ferrOf .wrongType = some .wrongType ∧
+    frameErrKind .wrongType = "FrameEncoding" := by
+  refine ⟨?_, rfl, rfl⟩
+  unfold FrameReader.next
+  have hne : bs.isEmpty = false := by
+    cases bs with
+    | nil => simp [decFrame, decType, GmQuic.Wire.decVarint, Res.bind] at h
+    | cons _ _ => rfl
+  rw [hne]; simp only [Bool.false_eq_true, if_false]; rw [h]
+
+example : decFrame .initial [0x07] = .err .wrongType := by decide   -- NEW_TOKEN in an Initial packet
+example : decFrame .handshake [0x08, 0x00] = .err .wrongType := by decide   -- STREAM in a Handshake packet
 
 /-- … and so is `NoFrames`, whenever it is raised. -/
 theorem noframes_is_protocol_violation : frameErrKind .noFrames = "ProtocolViolation" := by rfl
